@@ -136,3 +136,26 @@ theorem run_blocks_only (e : Env) : ∀ (ops : List Op) (s : State),
       exact ih _
 
 end BV.C17.HF
+
+namespace BV.C17.HF
+
+/-- the best header only ever moves to a header with strictly more work (ties keep the first seen) -/
+theorem stepHeader_best_moves_up (e : Env) (b : BState) (h : HState) (n : Nat)
+    (hW : e.W (e.parent n) < e.W n) (hne : (stepHeader e b h n).1.best ≠ h.best) :
+    (stepHeader e b h n).1.best = n ∧ e.W h.best < e.W n := by
+  unfold stepHeader at hne ⊢
+  simp only [] at hne ⊢
+  split at hne <;> try (exact absurd rfl hne)
+  split at hne <;> try (exact absurd rfl hne)
+  split at hne <;> try (exact absurd rfl hne)
+  split at hne <;> try (exact absurd rfl hne)
+  split at hne <;> try (exact absurd rfl hne)
+  rename_i h1 h2 h3 h4 h5
+  simp only [h1, h2, h3, h4, h5, if_false, Bool.false_eq_true]
+  split
+  · next hp => rw [hp] at hW; exact ⟨rfl, hW⟩
+  · split
+    · next hp hle => simp only [hp, hle, if_true, if_false] at hne; exact absurd rfl hne
+    · next hp hgt => exact ⟨rfl, by omega⟩
+
+end BV.C17.HF
